@@ -222,7 +222,12 @@ func verif_ServeHTTP(rp *HTTPReverseProxy, rw http.ResponseWriter, req *http.Req
 //
 //verif:fieldfn Muxer vhostFunc
 func verifSpec_vhostFunc(c net.Conn) (net.Conn, map[string]string, error) {
-	return verif.Any[net.Conn](), verif.Any[map[string]string](), verif.Any[error]()
+	// a hook that fails hands back no connection (GetHTTPSHostname and the
+	// CONNECT sniffer return nil with their error): the generic code may use the
+	// connection it gets only after it has seen that there was no error
+	sc, err := verif.Any[net.Conn](), verif.Any[error]()
+	verif.Assume(err != nil || sc != nil, "a sniffing hook that reports no error hands back the connection to go on with")
+	return verif.Nullable(sc), verif.Any[map[string]string](), err
 }
 
 //verif:fieldfn Muxer checkAuth
@@ -273,7 +278,7 @@ func verif_getListener(v *Muxer, name, path, httpUser string) {
 // listener; a connection that cannot be handed over is closed, not left open.
 //
 //verif:contract (*~/pkg/util/vhost.Muxer).handle
-//verif:props C06 C07 C11 C01
+//verif:props C06 C07 C11 C01 C16
 func verif_Muxer_handle(v *Muxer, c net.Conn) {
 	verif.ResetEvents()
 	v.handle(c)
@@ -303,17 +308,12 @@ func verif_Muxer_handle(v *Muxer, c net.Conn) {
 	if verif.Recovered() {
 		verif.Ensures(verif.Called("net.Conn).Close"), "failed_hand_over_closes_connection")
 	}
-	// C11 "never orphaned": a connection whose credentials were refused has been
-	// answered, is handed to nobody, and is closed
-	if verif.Called(evMuxAuth) && (!verif.RetBool(evMuxAuth, 0) || verif.RetErr(evMuxAuth, 1) != nil) {
-		verif.Ensures(verif.Called("net.Conn).Close") && !verif.Called("send"), "refused_credentials_close_the_connection")
-	}
 }
 
 // Listener.Close removes exactly the listener's own route triple.
 //
 //verif:contract (*~/pkg/util/vhost.Listener).Close
-//verif:props C06 C10
+//verif:props C06 C10 C01
 func verif_Listener_Close(l *Listener) {
 	name, loc, user := l.name, l.location, l.routeByHTTPUser
 	verif.Requires(l.accept != nil && !verif.Closed(l.accept), "open_listener")
@@ -407,7 +407,7 @@ func verif_Routers_Add(r *Routers, domain, location, httpUser string, payload an
 // table invariant is re-established.
 //
 //verif:contract (*~/pkg/util/vhost.Routers).Del
-//verif:props C06 C10
+//verif:props C06 C10 C01
 func verif_Routers_Del(r *Routers, domain, location, httpUser string, k int) {
 	d := strings.ToLower(domain)
 	r.Del(domain, location, httpUser)
@@ -493,7 +493,7 @@ func verifSpec_ChooseEndpointFn() (string, error) { return verif.Any[string](), 
 // rewritten iff the route declares a rewrite; configured request headers are set.
 //
 //verif:contract ~/pkg/util/vhost.NewHTTPReverseProxy$1
-//verif:props C06 C02 C07
+//verif:props C06 C02
 func verif_Rewrite(r *httputil.ProxyRequest) {
 	rc := r.Out.Context().Value(RouteConfigKey).(*RouteConfig)
 	host0 := r.Out.Host
@@ -531,7 +531,7 @@ func verif_Rewrite(r *httputil.ProxyRequest) {
 // an arbitrary configured header).
 //
 //verif:contract ~/pkg/util/vhost.NewHTTPReverseProxy$1
-//verif:props C02 C07
+//verif:props C02
 //verif:kinds post,loop,pre
 func verif_Rewrite_preserves(r *httputil.ProxyRequest) {
 	verif.Requires(r.Out.Header != nil && r.In.Header != nil && r.Out.URL != nil, "requests_have_header_maps")
@@ -600,6 +600,9 @@ func verif_ErrorHandler(rw http.ResponseWriter, req *http.Request, err error) {
 // NewHTTPReverseProxy: the response-header timeout is the configured one
 // (60 s when not positive).
 //
+// (h2c.NewHandler only stores the handler it is given: trusted, listed.)
+//
+//verif:pure-ext golang.org/x/net/http2/h2c.NewHandler
 //verif:contract ~/pkg/util/vhost.NewHTTPReverseProxy
 //verif:props C02
 func verif_NewHTTPReverseProxy(option HTTPReverseProxyOptions, vhostRouter *Routers) {
@@ -609,4 +612,15 @@ func verif_NewHTTPReverseProxy(option HTTPReverseProxyOptions, vhostRouter *Rout
 		want = 60 * time.Second
 	}
 	verif.Ensures(rp != nil && rp.responseHeaderTimeout == want && rp.vhostRouter == vhostRouter, "timeout_and_router_as_configured")
+	// "for all numbers of concurrent requests": the transport the requests go out
+	// through puts no cap on the simultaneous exchanges of one route (the pool key
+	// of a route is one "host" for http.Transport; a cap there makes the next
+	// request wait for a slot instead of getting its own work connection)
+	px, isRP := verif.NthArg[http.Handler]("h2c.NewHandler", 0, 0).(*httputil.ReverseProxy)
+	verif.Ensures(verif.CallCount("h2c.NewHandler") == 1 && isRP, "requests_served_by_the_reverse_proxy")
+	if isRP {
+		tr, isT := px.Transport.(*http.Transport)
+		verif.Ensures(isT && tr.MaxConnsPerHost == 0 && !tr.DisableKeepAlives, "no_cap_on_concurrent_exchanges_of_a_route")
+		verif.Ensures(isT && tr.ResponseHeaderTimeout == want, "backend_answer_awaited_for_the_configured_time")
+	}
 }
